@@ -274,6 +274,31 @@ def extract_writer_table(fn: ast.FunctionDef):
     return {"table": table, "interp": interp, "default": default, "loop": loop, "chain": chain}
 
 
+# encoders of other languages: the escapes they emit that Nix's lexer reads differently (Nix: \\n \\r \\t, any other \\x is x)
+FOREIGN_ENCODERS = {
+    "json.dumps": "JSON writes control characters as \\b, \\f and \\uXXXX, which Nix reads as the letters b, f and uXXXX",
+    "dumps": "JSON writes control characters as \\b, \\f and \\uXXXX, which Nix reads as the letters b, f and uXXXX",
+    "repr": "Python repr writes \\xNN / \\uNNNN / \\a-style escapes and may choose single quotes; Nix reads \\x41 as x41",
+    "ascii": "Python ascii() writes \\xNN / \\uNNNN escapes, which Nix reads as literal letters and digits",
+    "unicode_escape": "the unicode_escape codec writes \\xNN / \\uNNNN escapes, which Nix reads as literal letters and digits",
+    "shlex.quote": "shell quoting is not Nix string syntax",
+    "quote": "shell/URL quoting is not Nix string syntax",
+}
+
+
+def foreign_encoders(fn: ast.AST):
+    out = []
+    for c in ast.walk(fn):
+        if isinstance(c, ast.Call):
+            d = dotted(c.func)
+            if d in FOREIGN_ENCODERS:
+                out.append((c, (d, FOREIGN_ENCODERS[d])))
+            elif isinstance(c.func, ast.Attribute) and c.func.attr in ("encode", "decode") and any(
+                    isinstance(a, ast.Constant) and a.value in ("unicode_escape", "unicode-escape", "string_escape") for a in list(c.args) + [k.value for k in c.keywords]):
+                out.append((c, ("unicode_escape", FOREIGN_ENCODERS["unicode_escape"])))
+    return out
+
+
 def check_writer(prog: Program, res: Results, rid: str) -> dict:
     r = res.rule(rid, "writer/reader escape tables: every character special inside a Nix string is escaped, each emitted "
                  "escape decodes to the original character, `${` is escaped exactly when requested, the NPath reader "
@@ -282,7 +307,14 @@ def check_writer(prog: Program, res: Results, rid: str) -> dict:
     res.analysed_functions.add(ef.key)
     w = extract_writer_table(ef.node)
     if w is None:
-        res.unclass("_escape_nix_string: the per-character if/elif chain was not found")
+        foreign = foreign_encoders(ef.node)
+        r.instances += 1
+        for c, (name, why) in foreign:
+            r.ob(False, {"escaper_delegates_to": name})
+            res.add(rid, ("_escape_nix_string", "escaping delegated to a foreign encoder", name), ef.loc(c),
+                    f"_escape_nix_string delegates to `{norm(c)[:60]}`: {why}")
+        if not foreign:
+            res.unclass("_escape_nix_string: the per-character if/elif chain was not found")
         return {}
     table = w["table"]
     r.instances += len(table)
